@@ -41,7 +41,7 @@ ALAB = ['ab', 'rev', 'ab', 'mix', 'rev', 'fd', 'falsy']
 def bounds(tier):
     return {'quick': {'n<=2': 'full branching (every answer sequence)', 'n=3': 'deviation bound 2', 'max_points': 60,
                       'flags': '1 of 4 (rotating) per spec', 'heuristics': 4},
-            'thorough': {'n<=2': 'full branching, 2 of 4 flag combinations (rotating)', 'n=3': 'deviation bound 3 + full branching if <= 3000 leaves',
+            'thorough': {'n<=2': 'full branching, 2 of 4 flag combinations (rotating)', 'n=3': 'deviation bound 3',
                          'max_points': 80}}[tier]
 
 
